@@ -140,13 +140,40 @@ fn judge_transmits(w: &World, ei: usize, ch: usize, facts: &Facts, may_migrate: 
 pub fn migrate_case(seed: u64, lane: Lane, trace: bool) -> CaseOut {
     let mut r = Rng::new(seed ^ 0xC15A);
     let faults = r.chance(50);
-    let h = scenario(seed, lane, &mut r, faults);
+    let mut h = scenario(seed, lane, &mut r, faults);
+    // a third of the cases are pure downloads: the client writes nothing, so after a move all the
+    // server ever sees from the new address are acknowledgements (a NAT rebinding the client does
+    // not know about) - the server must follow all the same
+    let download_only = r.chance(33);
+    if download_only {
+        h.cli_app[0].plans.clear();
+        h.cli_app[0].dgram_count = 0;
+        h.cli_app[0].respond_max = 0;
+        h.srv_app.plans.retain(|p| !p.bidi);
+        h.srv_app.plans.push(crate::app::StreamPlan { bidi: false, len: 150_000 + r.below(250_000), chunk: 4096, use_write_chunks: false, end: crate::app::EndMode::Finish, prio: 0 });
+        h.cli_t[0].max_uni = h.cli_t[0].max_uni.max(8);
+        // (windows that never need an update during the download: nothing but ACKs to send)
+        h.cli_t[0].rwnd = 1 << 40;
+        h.cli_t[0].stream_rwnd = 1 << 30;
+        h.cli_t[0].ack_freq = None;
+        h.srv_t.ack_freq = None;
+        h.srv_t.send_window = h.srv_t.send_window.max(1 << 20);
+        h.ops.clear();
+    }
     let mut w = h.build();
     w.mon.log_transmits = true;
+    // (in a download the binding the client has left lingers for a while - the client still
+    // receives there and acknowledges from its new address - and then is gone)
+    if download_only {
+        w.old_addresses_die_after_ns = Some(50_000_000 + r.below(400_000_000));
+    }
     if trace {
-        w.trace = Some(vec![]);
+        w.trace = Some(vec![format!("download_only={download_only} server plans {:?}", h.srv_app.plans.iter().map(|p| p.len).collect::<Vec<_>>())]);
     }
     let mut out = CaseOut::default();
+    if download_only {
+        out.cnt.inc("c15.download_only_cases");
+    }
     let mut facts = Facts { genuine: BTreeMap::new(), spoofs: vec![] };
     facts.genuine.insert(w.eps[1].addr, 0);
     // address changes at random instants of the transfer
@@ -167,6 +194,7 @@ pub fn migrate_case(seed: u64, lane: Lane, trace: bool) -> CaseOut {
         }
         while next_move < moves.len() && moves[next_move].0 <= w.now {
             let (_, alt, tell) = moves[next_move];
+            let tell = tell && !download_only;
             next_move += 1;
             // only once the handshake is confirmed (an earlier move legitimately kills it)
             let confirmed = w.eps[1].conns.values().all(|c| c.app.connected && !c.c.is_handshaking() && !c.c.verif_probe().has_keys[1]) && w.eps[0].conns.values().all(|c| c.app.connected && !c.c.verif_probe().has_keys[1]) && !w.eps[0].conns.is_empty();
@@ -177,6 +205,11 @@ pub fn migrate_case(seed: u64, lane: Lane, trace: bool) -> CaseOut {
             let a = addr_of(1, alt);
             if !w.eps[1].addrs.contains(&a) {
                 w.eps[1].addrs.push(a);
+            }
+            let old = w.eps[1].addr;
+            if old != a {
+                w.left_at.insert(old, w.now);
+                w.left_at.remove(&a);
             }
             w.eps[1].addr = a;
             facts.genuine.entry(a).or_insert(w.now);
@@ -223,6 +256,21 @@ pub fn migrate_case(seed: u64, lane: Lane, trace: bool) -> CaseOut {
                         viol.push(format!("server conn 0/{ch} still sends to {dst} at {t} ns although the client has been at {final_addr} since {moved_at} ns"));
                     }
                 }
+            }
+        }
+    }
+    // ... and it follows on acknowledgements alone: a server that has been receiving from the
+    // client's final address for ten seconds and more and has never sent a single datagram there
+    // has not followed, whatever became of the transfer
+    for (ch, c) in &w.eps[0].conns {
+        if let Some(cm) = w.mon.conns.get(&(0, *ch)) {
+            let moved_at = facts.genuine.get(&final_addr).copied().unwrap_or(0);
+            let heard = cm.paths.get(&final_addr).map_or(0, |p| p.recvd);
+            let spoke = cm.tx_log.iter().any(|x| x.1 == final_addr);
+            if final_addr != addr_of(1, 0) && heard > 0 && !spoke && w.now > moved_at + 10_000_000_000 && c.app.lost.is_empty() && !c.c.is_closed() {
+                out.cnt.inc("c15.never_followed");
+                viol.push(format!("server conn 0/{ch} received {heard} bytes from the client's new address {final_addr} (in use since {moved_at} ns, now {} ns) and never sent anything there", w.now));
+                out.inconclusive = None;
             }
         }
     }
